@@ -15,7 +15,7 @@ CHECKS = [
   "scheduling points are the synchronisation operations (mutex, rwmutex, waitgroup, atomics, channel ops, go) of metrics, datum, runtime and vm; code between two points runs atomically; deviation bound, not full interleaving coverage; a shutdown hang when a reload lands after end of input is observed but outside this property's statement",
   "stateless model checking of the implementation under a controlled scheduler (iterative deviation bounding, DFS, replay-confirmed counterexamples)", "§3 C20"),
  ("C03", "seqx", "exploration",
-  "all byte strings of length<=2, all token sequences of length<=3 (thorough 4) over a 60-token alphabet, every prefix and single-token deletion (thorough: duplication, 4 replacements) of every example program, nesting families of depth 1..300 for six constructs (across the recursion limit), regex lengths across 1024, unterminated strings/regexes: no panic, exactly one of {code, non-empty errors}, termination (30 s watchdog, twice), identical second compile",
+  "all byte strings of length<=2, all token sequences of length<=3 (thorough 4) over a 60-token alphabet, every prefix and single-token deletion (thorough: duplication, 4 replacements) of every example program, nesting families of depth 1..300 for six constructs (across the recursion limit), regex lengths across 1024, unterminated strings/regexes, every ordered forest of <=7 statements over {next, @a{}, @b{}, def a{}, def b{}} (quick: pruned to definitions containing a next; about 200 000 programs): no panic, no process-killing fatal error (the enumeration runs in a supervised child process; an input in flight when it dies is re-run alone to attribute the crash), exactly one of {code, non-empty errors}, termination (30 s watchdog, twice), identical second compile",
   "arbitrary long inputs are not enumerated; termination is judged by a generous watchdog, never by a short deadline",
   "exhaustive small-scope input enumeration plus systematic single-edit neighbourhoods of a corpus, on the real compiler", "§3 C03"),
  ("C05", "seqx", "exploration",
@@ -23,11 +23,11 @@ CHECKS = [
   "histogram metrics are not in the families (their state cannot be populated through the public API); processing-time stamps differ between the two VMs by construction and are masked; stamps set by the program are compared",
   "exhaustive bounded history enumeration with a differential oracle on the real VM", "§3 C05"),
  ("C07", "seqx", "exploration",
-  "one program with a strptime site per layout (10 layouts), a settime site per value (7) and a plain site; all line sequences of length<=2 (thorough 3) × 4 zones × syslog-current-year on/off, plus a run crossing the memo size; oracle is time.Parse/ParseInLocation with the documented year substitution, and a clock bracket for processing time",
+  "one program with a strptime site per layout (11 layouts incl. one whose layout plus value exceed 64 bytes), a settime site per value (7) and a plain site; all line sequences of length<=2 (thorough 3) × 4 zones × syslog-current-year on/off, plus a run crossing the memo size; oracle is time.Parse/ParseInLocation with the documented year substitution, and a clock bracket for processing time",
   "layout and value families are fixed finite sets; the yearless substitution reads the same clock as the VM",
   "exhaustive bounded enumeration of configurations and line sequences against the standard library as specification", "§3 C07"),
  ("C08", "seqx", "exploration",
-  "all ordered pairs of label tuples (arity 1-2) over all strings up to length 2 (thorough 3) of {a,-,\\,0xFF}, and all tuples of arity 3-4 in one metric: create/find/write/expire/delete one tuple while observing the other, on the real Metric",
+  "all ordered pairs of label tuples (arity 1-2) over all strings up to length 2 (thorough 3) of {a,-,\\,0xFF}, and all tuples of arity 3-4 in one metric: create/find/write/expire/delete one tuple while observing the other, and garbage collections with only one of the two marked / overdue, on the real Metric and Store",
   "small-scope: longer label strings are not enumerated; the alphabet contains the separator and the escape character of the key encoding, which is what collisions are made of",
   "exhaustive small-scope enumeration of input pairs on the real code", "§3 C08"),
  ("C09", "seqx", "model_checking",
@@ -87,11 +87,11 @@ CHECKS = [
   "default schedule with quiescence barriers; counters read as deltas; reload = LoadAllPrograms called directly",
   "explicit-state exploration of the implementation over operation histories (multi-process BFS, replay from the initial state, event-count reference model)", "§3 C25"),
  ("C01", "mtlgen", "exploration",
-  "every program of the typed families {every binary operator between 10 typed atoms (int/float literals, typed captures, metric reads) in 4 placements (assignment, +=, condition, index), relational, logical incl. short circuit with an erroring operand, string expressions and builtins (len tolower string int float strtol subst), operator-pair precedence with both parenthesisations, control-flow trees (nested conditionals, else, otherwise also inside else and after nested blocks, stop; a distinct trace counter per leaf), decorators with next at every position applied once/twice/nested, declarations x operations (counter/gauge, hidden, 0-2 keys, int/float; ++ -- += = del del-after read-back), effect;runtime-error;effect for 8 error kinds} (about 5 100 programs quick, 12 300 thorough) x every line sequence of length <=2 (thorough 3) over the family's alphabet: real compiler+VM against an independent reference interpreter after every line (store contents incl. label sets and expiry marks, runtime-error behaviour); plus 12 forms written as docs/Language.md shows them must be accepted",
+  "every program of the typed families {every binary operator between 10 typed atoms (int/float literals, typed captures, metric reads) in 4 placements (assignment, +=, condition, index), relational, logical incl. short circuit with an erroring operand, string expressions and builtins (len tolower string int float strtol subst), operator-pair precedence with both parenthesisations, control-flow trees (nested conditionals, else, otherwise also inside else and after nested blocks, stop; a distinct trace counter per leaf), decorators with next at every position applied once/twice/nested, declarations x operations (counter/gauge, hidden, 0-2 keys, int/float; ++ -- += = del del-after read-back), effect;runtime-error;effect for 8 error kinds, capture scoping (two occurrences of the same / another pattern text applied with =~ to different strings, nested or in sequence, outer capture read before and after the inner block; the same text in two top-level blocks; a capture reached although its match was short-circuited away on this line)} (about 5 100 programs quick, 12 300 thorough) x every line sequence of length <=2 (thorough 3) over the family's alphabet: real compiler+VM against an independent reference interpreter after every line (store contents incl. label sets and expiry marks, runtime-error behaviour); plus 12 forms written as docs/Language.md shows them must be accepted",
   "the reference interpreter's choices where the language reference is silent are listed in engine/mtl/ASSUMPTIONS.md; timestamps are C07's subject",
   "exhaustive bounded program and input enumeration against an independent reference interpreter", "§3 C01"),
  ("C04", "mtlgen", "exploration",
-  "every compiler-accepted program among: the typed families of C01; statements in context (every binary operator between 14 atoms, unary forms, constant trees, every builtin with 0-3 arguments from 17 argument forms) x 3 (thorough 5) placements (about 45 000 accepted quick, 106 000 thorough); 5 accepted-but-odd programs; the example programs over the first 60 lines of every test log; (dynamic) each run over its line alphabet twice with HardCrash set: no panic, every runtime error is one of the VM's explicit checked conditions (message classes); (static) explicit-state exploration of every reachable (program counter, abstract stack) state of each accepted program's bytecode (about 1.9 million abstract states thorough), abstract values = the run-time representations the VM distinguishes, transfer functions mirroring what vm.execute accepts: no stack underflow, no operand of a representation the instruction does not accept, jump targets and table operands in range",
+  "every compiler-accepted program among: the typed families of C01; statements in context (every binary operator between 14 atoms, unary forms, constant trees, every builtin with 0-3 arguments from 17 argument forms) x 3 (thorough 5) placements (about 45 000 accepted quick, 106 000 thorough); 5 accepted-but-odd programs; the example programs over the first 60 lines of every test log; (dynamic) each run over its line alphabet twice with HardCrash set: no panic, every runtime error is one of the VM's explicit checked conditions (message classes); (static) explicit-state exploration of every reachable (program counter, abstract stack) state of each accepted program's bytecode (about 1.9 million abstract states thorough), abstract values = the run-time representations the VM distinguishes, transfer functions mirroring what vm.execute and compare() accept: no stack underflow, no operand of a representation the instruction does not accept, jump targets and table operands in range",
   "the static part covers all inputs of each program but only the enumerated programs; its transfer functions are a hand-written mirror of vm.execute (typed pops, type assertions, datum accessors) and must follow changes to it; dynamic faults are classified by error message",
   "exhaustive bounded program enumeration; per program explicit-state model checking of the bytecode's abstract state space plus execution on the real VM with a fault classifier", "§3 C04"),
  ("C23", "mtlgen", "exploration",
@@ -103,7 +103,7 @@ CHECKS = [
   "mutation sites are the nodes of the generator's own syntax trees; decorator definitions themselves are not mutated",
   "exhaustive single-site mutation of an enumerated program corpus on the real compiler and loader", "§3 C24"),
  ("C11", "gosim", "exploration",
-  "for every pair (thorough: also 8 triples) of activities from {VM processing three lines incl. creating and deleting label tuples, Store.Gc with a limit and an expired datum, Collect, HandleJSON, HandleVarz, HandleGraphite, push writer, reload (compile edited source, Store.Add, first line on the new VM)} on one store: all schedules with <=1 (thorough 2) deviations of the instrumented real metrics, datum, exporter and vm code, where every synchronisation operation and every access to a hooked shared field (Metric.LabelValues/labelValuesMap/Source/Limit/Buckets/Keys, LabelValue.Expiry/Value/Labels, Store.Metrics, String.Value, Buckets.Buckets/Count/Sum, VM.runtimeError/terminate/input) is a scheduling point; oracles: no pair of conflicting accesses unordered by the happens-before relation of mtail's own synchronisation (source-level vector clocks; scheduler hand-offs add no edge), no deadlock or panic, the audited counter equals the increments issued, an exported value of it lies in the range it ever held",
+  "for every pair (thorough: also 8 triples) of activities from {VM processing three lines incl. creating and deleting label tuples, Store.Gc with a limit and an expired datum, Collect, HandleJSON, HandleVarz, HandleGraphite, push writer, reload (compile edited source, Store.Add, first line on the new VM)} on one store: all schedules with <=1 (thorough 2) deviations of the instrumented real metrics, datum, exporter and vm code, where every synchronisation operation and every access to a hooked shared field (Metric.LabelValues/labelValuesMap/Source/Limit/Buckets/Keys, LabelValue.Expiry/Value/Labels, Store.Metrics, String.Value, Buckets.Buckets/Count/Sum, VM.runtimeError/terminate/input) is a scheduling point; oracles: no pair of conflicting accesses unordered by the happens-before relation of mtail's own synchronisation (source-level vector clocks; scheduler hand-offs add no edge), no deadlock or panic, the audited counter equals the increments issued, an exported value of it lies in the range it ever held; plus a metric-level part: 2 threads x 1-2 operations and 3 threads x 1 operation from {find-or-create+increment, delete, expiry mark, locked enumeration, remove-oldest} on colliding keys of one Metric (252 scenarios), <=3 / <=2 (thorough 5 / 4) deviations, brute-force linearizability: results and final contents equal those of some sequential order of the same locked steps on an ordered-list model",
   "deviation bound, not full interleaving coverage; memory-order effects on fields that are not hooked are outside the detector; races are identified by field and the pair of (file, function) sites",
   "stateless model checking of the implementation under a controlled scheduler with a source-level happens-before race detector", "§3 C11"),
  ("C17", "gosim", "exploration",
